@@ -14,12 +14,27 @@ RULE = ("Generated oriented manifold polygon surfaces (15 base shapes incl. tori
         "uniform over all kinds) followed by a full sweep of every kind over every element in a shuffled kind order on a second "
         "fresh mesh. Every answer is compared with a reference computed from the face list alone. Unused vertices are inserted at id "
         "0 / in the middle / at the end, a vertex attribute called 'border' with arbitrary flags may already be on the mesh, and the "
-        "duplicate-attribute switch is drawn. Size regime (huge): strips of 23300 / 33000 / 66000 quads (|V|^2 > 2**31, |V| or |F| > "
+        "duplicate-attribute switch is drawn. Argument forms: element ids are handed over as plain int, numpy int64 or numpy int32 "
+        "(per case; also in the polyline and the huge sub-check); the vertices of a face go to face_id unpacked, as ONE re-iterable "
+        "container (list / tuple / numpy row / set / frozenset / dict keys / deque / the mesh's own face row) or as ONE one-shot "
+        "iterator (iter / generator / map / reversed / itertools.chain) - drawn per query in the sequence, and in the sweep every face "
+        "is asked once in each of the three classes; a re-iterable container is sometimes handed over twice; tuples that are no face = "
+        "arbitrary vertices / a face without one vertex / a face plus one vertex; the return_inds flag goes by position or by name. "
+        "Query kind 'chained': the arguments are the library's own answers handed on exactly as they came (half edge of a corner -> "
+        "half_edge_to_corner / direct_face; vertices of a face -> face_id / in_face_index / vertex_to_corner_in_face; ends of an edge "
+        "-> edge_id / other_edge_end / is_edge_on_border / edge_to_faces; ring of a vertex -> edge_id / direct_face / corner_to_face / "
+        "next_corner; next_corner walk around a face), every intermediate and final answer compared with the reference. "
+        "Size regime (huge): strips of 23300 / 33000 / 66000 quads (|V|^2 > 2**31, |V| or |F| > "
         "2**16), every edge id in both orientations, border lists, all query kinds sampled at both ends of the id ranges. non-trivial = "
         "the mesh has an interior edge and the sequence uses >=3 query kinds (huge: |V|^2 > 2**31); distinct = distinct (faces, sort "
         "flag, sequence).")
 ASSUMPTIONS = ["input surfaces are oriented manifolds with a simple 1-skeleton and pairwise distinct face vertex sets "
-               "(what the library's edge/face keys can represent)"]
+               "(what the library's edge/face keys can represent)",
+               "face_id accepts, besides the documented unpacked integers, ONE iterable of vertex ids (the library builds the key of a face "
+               "row that way itself and reads the iterable once, so anything that can be iterated once is a valid carrier); a vertex "
+               "tuple that is not the vertex set of a face gets None (docstring)",
+               "ids may be numpy signed integers (int64 / int32) as well as int: that is what iterating numpy index arrays or the rows of a "
+               "mesh built from numpy faces yields; unsigned and narrower types are not generated"]
 
 KINDS = ["next_corner", "previous_corner", "opposite_corner", "corner_to_half_edge", "half_edge_to_corner", "corner_to_face",
          "direct_face", "direct_face_inds", "edge_to_faces", "opposite_face", "opposite_face_inds", "common_edge",
@@ -89,8 +104,11 @@ def id_conv(case):
 
 
 def face_id_form(q):
-    """the argument form a face_id query [kind, a, b, c] uses (a function of the query alone)"""
-    return FACE_ID_FORMS[(q[3] // 4) % len(FACE_ID_FORMS)]
+    """the argument form a face_id query [kind, a, b, c] or [kind, a, b, c, form] uses (a function of the query alone; c is mixed so
+    that the small values generators prefer spread over all forms)"""
+    if len(q) > 4:
+        return q[4]
+    return FACE_ID_FORMS[((((q[3] // 4) * 2654435761) % 2 ** 32) >> 16) % len(FACE_ID_FORMS)]
 
 
 def face_id_args(form, elems, own_row, rnd):
@@ -135,7 +153,7 @@ def pick_pair(ref, medges, a, b):
 
 def do_query(m, ref, medges, eid, sort_on, q, ctx, where):
     """issue one query on mesh m and compare with the reference. q = [kind, a, b, c]"""
-    kind, a, b, c = q
+    kind, a, b, c = q[:4]
     C = m.connectivity
     nV, nF, nC = ref.nV, len(ref.F), ref.nC
     sig = "q:" + kind
@@ -297,7 +315,7 @@ def do_query(m, ref, medges, eid, sort_on, q, ctx, where):
         own_row = None
         if c % 4 == 0:
             # a vertex tuple that is (most likely) not a face: arbitrary vertices, a face without one of its vertices, a face and one more vertex
-            variant = NONFACE_VARIANTS[(c // 4 // len(FACE_ID_FORMS)) % len(NONFACE_VARIANTS)]
+            variant = NONFACE_VARIANTS[(c // 4 + b) % len(NONFACE_VARIANTS)]
             if variant == "face-minus-one-vertex":
                 fl = fl[1:]
             elif variant == "face-plus-one-vertex" and len(set(ref.F[f])) < nV:
@@ -616,11 +634,10 @@ def fn(case, ctx):
             qs = [[kind, f, j, 1] for f in range(nF) for j in range(len(F[f]))] + [[kind, f, rnd.randrange(nV), 0] for f in range(nF)]
         elif kind == "face_id":
             # every face: unpacked, as one re-iterable container, as one one-shot iterator (forms drawn per face); tuples that are no face in drawn forms
-            nfo = len(FACE_ID_FORMS)
             qs = []
             for f in range(nF):
                 for form in ("unpacked", rnd.choice(REITERABLE_FORMS), rnd.choice(ONE_SHOT_FORMS)):
-                    qs.append([kind, f, rnd.randrange(100), 4 * (FACE_ID_FORMS.index(form) + nfo * rnd.randrange(50)) + 1])
+                    qs.append([kind, f, rnd.randrange(100), 1, form])
             qs += [[kind, rnd.randrange(10 ** 4), rnd.randrange(10 ** 4), 4 * rnd.randrange(10 ** 4)] for _ in range(9)]
             rnd.shuffle(qs)
         elif kind == "chained":
@@ -662,7 +679,7 @@ def polyline_case(draw):
             E = draw(st.lists(st.sampled_from(pairs), unique=True, max_size=20))
     E = [list(e) if draw(st.booleans()) else [e[1], e[0]] for e in E]
     V = [[float(i), float(i * i % 5), 0.0] for i in range(n)]
-    return {"V": V, "E": E, "seed": draw(st.integers(0, 1000))}
+    return {"V": V, "E": E, "seed": draw(st.integers(0, 1000)), "id_type": draw(st.sampled_from(["int", "int", "int64", "int32"]))}
 
 
 def fn_polyline(case, ctx):
@@ -672,6 +689,8 @@ def fn_polyline(case, ctx):
     rnd.shuffle(kinds)
     m = polyline_from(V, E)
     C = m.connectivity
+    conv = id_conv(case) or int          # ids as plain int or as numpy integers
+    ctx.label("ids=" + id_type_of(case))
     medges = [tuple(ints(e)) for e in m.edges]
     ctx.check(medges == [key(e) for e in E], "polyline:edges", f"edges {medges} vs declared {E}")
     eid = {e: i for i, e in enumerate(medges)}
@@ -684,32 +703,37 @@ def fn_polyline(case, ctx):
         if kind == "edge_id":
             for u in range(len(V)):
                 for v in range(len(V)):
-                    ok, r = ctx.call("polyline:edge_id", C.edge_id, u, v)
+                    ok, r = ctx.call("polyline:edge_id", C.edge_id, conv(u), conv(v))
                     if ok:
                         exp = eid.get(key(u, v)) if u != v else None
                         ctx.check(r == exp, "polyline:edge_id", f"edge_id({u},{v}) = {r!r}, expected {exp!r} (kind order {kinds})")
         elif kind == "other_edge_end":
             for e, (a, b) in enumerate(medges):
                 for w in range(len(V)):
-                    ok, r = ctx.call("polyline:other_edge_end", C.other_edge_end, e, w)
+                    ok, r = ctx.call("polyline:other_edge_end", C.other_edge_end, conv(e), conv(w))
                     if ok:
                         exp = b if w == a else a if w == b else None
                         ctx.check(r == exp, "polyline:other_edge_end", f"other_edge_end({e},{w}) = {r!r}")
         elif kind == "vertex_to_vertices":
             for v in range(len(V)):
-                ok, r = ctx.call("polyline:v2v", C.vertex_to_vertices, v)
+                ok, r = ctx.call("polyline:v2v", C.vertex_to_vertices, conv(v))
                 if ok:
                     ctx.check(sorted(ints(r)) == sorted(nbr[v]), "polyline:v2v", f"vertex_to_vertices({v}) = {r}, expected {sorted(nbr[v])} (kind order {kinds})")
         elif kind == "vertex_to_edges":
             for v in range(len(V)):
-                ok, r = ctx.call("polyline:v2e", C.vertex_to_edges, v)
+                ok, r = ctx.call("polyline:v2e", C.vertex_to_edges, conv(v))
                 if ok:
                     ctx.check(sorted(r) == sorted(eid[key(v, w)] for w in nbr[v]), "polyline:v2e", f"vertex_to_edges({v}) = {r} (kind order {kinds})")
         elif kind == "edge_to_vertices":
             for e in range(len(medges)):
-                ok, r = ctx.call("polyline:e2v", C.edge_to_vertices, e)
-                if ok:
-                    ctx.check(tuple(ints(r)) == medges[e], "polyline:e2v", f"edge_to_vertices({e}) = {r}")
+                ok, r = ctx.call("polyline:e2v", C.edge_to_vertices, conv(e))
+                if ok and ctx.check(r is not None and len(r) == 2 and tuple(ints(r)) == medges[e], "polyline:e2v", f"edge_to_vertices({e}) = {r}"):
+                    # the answer handed on as it came
+                    ok, r2 = ctx.call("polyline:chained", C.edge_id, *r)
+                    ok2, r3 = ctx.call("polyline:chained", C.other_edge_end, e, r[1])
+                    if ok and ok2:
+                        ctx.check(r2 == e and r3 == medges[e][0], "polyline:chained",
+                                  f"edge_id(*edge_to_vertices({e})) = {r2!r}, other_edge_end({e}, edge_to_vertices({e})[1]) = {r3!r}; edge {e} is {medges[e]} (kind order {kinds})")
 
 
 # ----------------------------------------------------------------------------- size regime: ids and products beyond 2**16 / 2**31
@@ -719,7 +743,8 @@ def huge_case(draw):
     # a strip of n quads (optionally split into triangles): 2n+2 vertices, 3n+1 (4n+1) edges. n = 23300 -> |V|^2 > 2**31;
     # n = 33000 -> |V| > 2**16; n = 66000 -> |F| > 2**16 and |V|^2 > 2**32. A recipe realised in fn.
     return {"n": draw(st.sampled_from([66000, 23300, 33000, 66000])), "tri": draw(st.booleans()), "sort": draw(st.booleans()),
-            "reverse_faces": draw(st.booleans()), "reverse_vertices": draw(st.booleans()), "seed": draw(st.integers(0, 10 ** 6))}
+            "reverse_faces": draw(st.booleans()), "reverse_vertices": draw(st.booleans()), "seed": draw(st.integers(0, 10 ** 6)),
+            "id_type": draw(st.sampled_from(["int", "int64", "int32"]))}
 
 
 def fn_huge(case, ctx):
@@ -742,7 +767,7 @@ def fn_huge(case, ctx):
     ref = SurfRef(nV, F)
     c2 = dict(case); c2.update({"V": V, "F": F, "form": "list"})
     m = _build(c2)
-    ctx.label(f"n={n}", "tri" if case["tri"] else "quad", "sort=" + str(case["sort"]))
+    ctx.label(f"n={n}", "tri" if case["tri"] else "quad", "sort=" + str(case["sort"]), "ids=" + id_type_of(case))
     ctx.nontrivial(nV * nV > 2 ** 31)
     medges, ok = edges_of(m, ref, ctx)
     if not ok:
@@ -751,8 +776,9 @@ def fn_huge(case, ctx):
     C = m.connectivity
     nE, nF, nC = len(medges), len(F), ref.nC
     # every edge id, both orientations (packed keys a*|V|+b exceed 2**31 / 2**32 here)
+    conv = id_conv(case) or int
     for i, (a, b) in enumerate(medges):
-        r1, r2 = C.edge_id(a, b), C.edge_id(b, a)
+        r1, r2 = C.edge_id(conv(a), conv(b)), C.edge_id(conv(b), conv(a))
         if not ctx.check(r1 == i and r2 == i, "huge:edge_id", f"strip of {n} quads ({nV} vertices, {nE} edges): edge_id({a},{b}) = {r1!r}, edge_id({b},{a}) = {r2!r}, expected {i}"):
             return
     ok, be = ctx.call("huge:boundary_edges", lambda: m.boundary_edges)
@@ -774,7 +800,14 @@ def fn_huge(case, ctx):
         qs += [[k, v, 0, 0] for k in ("vertex_to_vertices", "vertex_to_faces", "vertex_to_corners", "vertex_to_edges", "is_vertex_on_border")]
     for f in pick(nF):
         qs += [[k, f, 0, 0] for k in ("face_to_vertices", "face_to_edges", "face_to_corners", "face_to_first_corner", "face_to_faces")]
-        qs += [["face_id", f, rnd.randrange(100), 1]]
+        qs += [["face_id", f, rnd.randrange(100), 1, rnd.choice(FACE_ID_FORMS)]]
+        qs += [["chained", f, rnd.randrange(8), rnd.choice([1, 4])]]
+    for c in pick(nC)[::4]:
+        qs += [["chained", c, 0, 0]]
+    for e in pick(nE)[::4]:
+        qs += [["chained", e, rnd.randrange(2), 2]]
+    for v in pick(nV)[::4]:
+        qs += [["chained", v, 0, 3]]
     rnd.shuffle(qs)
     for q in qs:
         do_query(m, ref, medges, eid, case["sort"], q, ctx, f"huge strip n={n}")
